@@ -399,6 +399,11 @@ def check_circuit(circuit, label, freqs, st, mx, viol, witness, expect_refusal=N
         bad("C02/tlm-refusal-mismatch", f"X_1 = X_2 = short must be refused with NotImplementedError on both sides: numeric {num_kind}, symbolic {sym_kind}")
         return
     if num_kind == "notimpl" or sym_kind == "notimpl":
+        if expect_refusal == "may-be-masked-by-short" and num_kind == "ok" and sym_kind == "notimpl":
+            # latitude: the numeric route stops at a shorted branch of a parallel connection and never evaluates a sibling
+            # container whose configuration the library refuses; the symbolic route builds every sub-expression and refuses
+            st["refusal_masked_by_short"] = st.get("refusal_masked_by_short", 0) + 1
+            return
         if "ok" in (num_kind, sym_kind):
             bad("C02/tlm-refusal-mismatch", f"one side refuses the configuration, the other returns: numeric {num_kind}, symbolic {sym_kind}")
         return
@@ -551,7 +556,7 @@ def run_case(case):
     elif k == "tree":
         c = G.build_objects(case["tree"])
         w = {"tree": G.brief(G.nf(case["tree"])), "replay_case": case}
-        check_circuit(c, c.to_string(6)[:200], [0.02, 3.3, 510.0, 7.7e4], st, mx, viol, w)
+        check_circuit(c, c.to_string(6)[:200], [0.02, 3.3, 510.0, 7.7e4], st, mx, viol, w, expect_refusal="may-be-masked-by-short")
         evals = 1
     elif k == "circ":
         for j in range(case["count"]):
@@ -568,7 +573,8 @@ def run_case(case):
                 viol.append({"key": f"C02/build-raised:{type(ex).__name__}", "msg": monitors.tb_tail(ex), "witness": {"tree": G.brief(G.nf(t))}})
                 continue
             w = {"cdc": text, "replay_case": {"kind": "cdc", "cdc": text} if not t.get("_objects_only") else {"kind": "tree", "tree": t}}
-            check_circuit(c, text[:200], [0.02, 3.3, 510.0, 7.7e4], st, mx, viol, w)
+            check_circuit(c, text[:200], [0.02, 3.3, 510.0, 7.7e4], st, mx, viol, w,
+                          expect_refusal="may-be-masked-by-short" if t.get("_objects_only") else None)
             slow_decay = any((0.97 < G.dec(e["p"][k][0]) < 1.0 or G.dec(e["p"][k][0]) < 0.03) for e in G.iter_elements(t) for k in e["p"] if k in G.EXPONENT_KEYS)
             if j == 0 and n <= 3 and not slow_decay:
                 check_limits(c, "circuit " + G.brief(G.nf(t)), st, mx, viol, w)
